@@ -8,6 +8,8 @@
 //     on both stores, step-wise against a map model (store.go);
 //  2. for fileStore, every history again with a failure (error / partial write /
 //     crash) at every underlying file operation in turn (deviation 1);
+//     2b. a reader racing with discard / re-commit of the same entry: the writer's block
+//     at every file-operation boundary of the reader (race.go);
 //  3. retryReader over a 6-byte stream with every opener script over {deliver 1-3,
 //     fail, deliver k then fail, open fails} up to length budget+2, with and without
 //     eventual recovery (retry.go).
@@ -67,6 +69,10 @@ func main() {
 	if *flagPart != "retry" {
 		st = runStores(r, depth, workers)
 	}
+	ra := &raceStats{outcomes: ev.NewCounter(), boundaries: ev.NewCounter()}
+	if *flagPart != "retry" {
+		ra = runTwoActor(r)
+	}
 	t1 := time.Now()
 	rt := &retryStats{outcomes: ev.NewCounter()}
 	if *flagPart != "stores" {
@@ -75,8 +81,8 @@ func main() {
 	t2 := time.Now()
 
 	cov := ev.Coverage{
-		"evaluations":         st.runs + rt.runs,
-		"distinct_nontrivial": st.faultsFired + rt.runsWithFailure,
+		"evaluations":         st.runs + rt.runs + ra.runs,
+		"distinct_nontrivial": st.faultsFired + rt.runsWithFailure + ra.inside,
 		"rule": fmt.Sprintf("stores: every history of <=%d ops over {Create(k), Write1/Write2(w), Commit(w), Discard(w), Open(k,off in {0,1,len-1,len,len+1}), Stat(k), Discard(k)} on 2 keys x %d key configurations, ops enabled by the model state, on memoryStore and on fileStore over vfs://; each fileStore history re-run once per (file-operation label of its fault-free run) x (fail | failpartial for Write | crash); a fault run is non-trivial when the armed label fired. re-commit histories: every sequence over {WC(k,1..3) = Create+Write of 3/5/6 bytes+Commit, Open(k,0), Open(k,1), Stat(k), DiscardEntry(k)} up to the depths listed under recommit_plans, on one and on two keys, both stores, with the same single-fault sweep where the plan says sweep=true. "+
 			"retryReader: DFS over all opener scripts over {D1,D2,D3,F,P1,P2,P3,O} up to length budget+2=%d (deliveries larger than the read buffer are omitted as duplicates; extensions of scripts whose tail is never consumed are pruned as equivalent), x {after the script: recover | open-fails; and, for scripts up to length %d, read-fails-0 | read-returns-1-byte-and-error | deliver-1-then-fail} x {EOF separate, EOF with last bytes} x read-buffer sizes; non-trivial = at least one scripted failure was consumed",
 			depth, len(keyConfigs), rt.maxLen, rt.extraTailMaxLen),
@@ -98,6 +104,15 @@ func main() {
 			"writes_failed_without_a_fault":  st.taintedNoFault,
 			"violating_runs":                 st.violRuns,
 		},
+		"two_actor": map[string]interface{}{
+			"rule":                 "reader R = Open(off)+Read to EOF (4-byte buffer)+Close+Stat of a committed entry; writer W = one atomic block {Discard;Create;Write;Commit} | {Create;Write;Commit} | {Discard} on the same store object and key, with old/new data lengths from a small set (shorter, longer, equal) and off in {0, len/2, len}; W's whole block is run before EVERY file operation of R (vfs.BeforeOp(k); for memoryStore, which makes no file operations, before every store/reader call of R) and once after R: all interleavings at file-operation granularity with W atomic. A run is non-trivial when W ran strictly inside R. Oracle: R gets an error, all of the old commit from off, or all of W's commit from off (only if W's Commit returned nil); Stat an error or the (size,records) of one of the two. ASSUMED file-system behaviour (verifh/vfs, as the local grailfile implementation on POSIX: Create writes a temporary file renamed over the path at Close, Remove unlinks): an already opened file keeps reading the content it was opened on after the path is replaced or removed.",
+			"runs":                 ra.runs,
+			"runs_with_W_inside_R": ra.inside,
+			"boundaries_exercised": ra.boundaries.Keys(),
+			"distinct_outcomes":    ra.outcomes.Distinct(),
+			"outcomes":             ra.outcomes.Keys(),
+			"violating_runs":       ra.violRuns,
+		},
 		"retry_reader": map[string]interface{}{
 			"budget_from_policy_object":       rt.budget,
 			"scripts":                         rt.scripts,
@@ -113,7 +128,7 @@ func main() {
 			"configs(eof_with_data,buf_size)": rt.configs,
 			"violating_runs":                  rt.violRuns,
 		},
-		"distinct_outcomes": st.outcomes.Distinct() + rt.outcomes.Distinct(),
+		"distinct_outcomes": st.outcomes.Distinct() + rt.outcomes.Distinct() + ra.outcomes.Distinct(),
 		"wall_s_stores":     t1.Sub(t0).Seconds(),
 		"wall_s_retry":      t2.Sub(t1).Seconds(),
 	}
